@@ -206,6 +206,48 @@ def published_inside(m0: int, m1: int, m2: int, m3: int, m4: int, m5: int, style
         return orc.result()
 
 
+def parse_results_independent(m0: bool, m1: bool, m2: bool, m3: bool, m4: bool, m5: bool, style: int, el: int, op: int,
+                              again: int) -> str:
+    """
+    A scope string is parsed, the resulting SdcLocation is changed by its owner (element `el` set to another value / cleared),
+    then the SAME string is parsed again (`again` more times) and used for filtering: every parse shows the location the string
+    spells, no two parses hand out the same object, matching is unaffected. Real interpreter semantics (no tracing) for the
+    library calls: a memoised parser is invisible to CrossHair's tracer, which by-passes functools caches.
+    pre: 0 <= style < 2
+    pre: 0 <= el < 6
+    pre: 0 <= op < 2
+    pre: 1 <= again <= 2
+    post: __return__ == 'ok'
+    """
+    present = [bool(m) for m in (m0, m1, m2, m3, m4, m5)]
+    style, el, op, again = pick(style, STYLES), pick(el, tuple(range(6))), pick(op, (0, 1)), pick(again, (1, 2))
+    with untraced():
+        orc = Oracle()
+        try:
+            if not any(present):
+                return 'ok'
+            loc = SdcLocation(**{e: style[i] for i, e in enumerate(ELEMENTS) if present[i]})
+            text = loc.scope_string
+            first = SdcLocation.from_scope_string(text)
+            setattr(first, ELEMENTS[el], 'changed&by=owner' if op == 0 else None)
+            seen = [first]
+            for _ in range(again):
+                nxt = SdcLocation.from_scope_string(text)
+                orc.check(all(nxt is not o for o in seen), 'parse-hands-out-the-same-object-twice')
+                for e in ELEMENTS:
+                    orc.check(norm(getattr(nxt, e)) == norm(getattr(loc, e)), 'later-parse-shows-change-made-to-earlier-result')
+                seen.append(nxt)
+            orc.check(loc._scope_string_matches(text), 'own-scope-string-not-inside-after-parse-result-was-changed')
+            provider = Service([], ScopesType(text), [], 'urn:provider', '1')
+            orc.check(provider in loc.filter_services_inside([provider]), 'service-not-inside-own-location-after-parse-result-was-changed')
+            if op == 0:
+                other = SdcLocation(**{ELEMENTS[el]: 'changed&by=owner'})
+                orc.check(provider not in other.filter_services_inside([provider]), 'service-inside-location-it-was-never-in')
+        except Exception as exc:  # noqa: BLE001
+            return exc_result(orc, exc, 'parse-independent')
+        return orc.result()
+
+
 def published_after_update(a0: bool, a1: bool, a2: bool, a3: bool, a4: bool, a5: bool,
                            b0: bool, b1: bool, b2: bool, b3: bool, b4: bool, b5: bool) -> str:
     """
